@@ -43,10 +43,17 @@ func genC20(rt *rapid.T) interface{} {
 	sc := &C20Scenario{Seed: rapid.Uint64().Draw(rt, "seed"), Pin: genPin(rt, "pin")}
 	sc.SetupID = rapid.StringOfN(rapid.RuneFrom([]rune("ABCDEFGHIJKLMNOPQRSTUVWXYZ0123456789")), 4, 4, 4).Draw(rt, "setupid")
 	sc.First = rapid.IntRange(0, 5).Draw(rt, "first")
+	if rapid.Bool().Draw(rt, "manyvariants") {
+		sc.First = rapid.IntRange(0, 6000).Draw(rt, "firstv")
+	}
 	n := rapid.IntRange(1, 9).Draw(rt, "nops")
 	kinds := []string{"restart", "restart", "restart", "pair-setup", "pair-add", "unpair", "unpair", "set", "set", "probe"}
 	for i := 0; i < n; i++ {
-		sc.Ops = append(sc.Ops, C20Op{Kind: rapid.SampledFrom(kinds).Draw(rt, "kind"), Arg: rapid.IntRange(0, 11).Draw(rt, "arg")})
+		op := C20Op{Kind: rapid.SampledFrom(kinds).Draw(rt, "kind"), Arg: rapid.IntRange(0, 11).Draw(rt, "arg")}
+		if op.Kind == "restart" && rapid.Bool().Draw(rt, "bigarg") {
+			op.Arg = rapid.IntRange(0, 6000).Draw(rt, "argv")
+		}
+		sc.Ops = append(sc.Ops, op)
 	}
 	sc.Sched = genSched(rt, 200)
 	return sc
@@ -56,7 +63,13 @@ func genC20(rt *rapid.T) interface{} {
 // values; the others differ in structure.
 func c20Structure(v int) []*accessory.Accessory {
 	sw := func(name string) *accessory.Switch {
-		return accessory.NewSwitch(accessory.Info{Name: name, SerialNumber: "SN-1", Manufacturer: "verif", Model: "m"})
+		a := accessory.NewSwitch(accessory.Info{Name: name, SerialNumber: "SN-1", Manufacturer: "verif", Model: "m"})
+		if v >= 6 {
+			// hundreds of further structures: the manufacturer description of a characteristic
+			// is part of the structure (everything but values is)
+			a.Switch.On.Description = fmt.Sprintf("variant %d", v/6)
+		}
+		return a
 	}
 	switch v % 6 {
 	case 0:
@@ -204,7 +217,7 @@ func runC20(t *testing.T, sci interface{}) *Outcome {
 			}
 			lastStruct = st
 			if txt["c#"] != strconv.Itoa(wantVersion) {
-				violate("config-number", "%s: the advertised c# is %s, want %d (variant %d)", when, txt["c#"], wantVersion, variant%6)
+				violate("config-number", "%s: the advertised c# is %s, want %d (variant %d)", when, txt["c#"], wantVersion, variant)
 			}
 			checkTXT(when)
 			// stored pairings survive
@@ -278,12 +291,9 @@ func runC20(t *testing.T, sci interface{}) *Outcome {
 				})
 				s.Logf("  restart")
 				if op.Arg%2 == 0 {
-					variant = op.Arg % 6
-				} else if op.Arg%4 == 1 {
+					variant = op.Arg
+				} else if op.Arg%4 == 1 && variant%6 <= 3 {
 					variant ^= 1 // same structure, other values (pairs 0/1 and 2/3)
-					if variant > 3 {
-						variant = op.Arg % 6
-					}
 				}
 				if !start(when + " restart") {
 					goto end
